@@ -7,7 +7,7 @@
     non-terminating data, then one terminating data line make a section; the first offending line is
     reported with its kind (blank line with its 1-based number, header in section, data between sections,
     end of input in a section, unparsable line with its text, I/O error) and the list stops there. *)
-Require Import CF.Proofs.Tac CF.Model.Records CF.Model.Reader CF.Model.Sections CF.Proofs.SectionsFacts.
+Require Import CF.Proofs.Tac CF.Model.Records CF.Model.Reader CF.Model.Sections CF.Proofs.SectionsFacts CF.Proofs.OpsFacts.
 
 (** For every stream and every drain that is allowed at least lines+2 calls: the items up to and
     including the first error are exactly the grammar's. *)
@@ -22,6 +22,15 @@ Theorem C05_drain_total : forall rs ln fuel, (length rs + 1 < fuel)%nat ->
   exists items, sdrain fuel {| sst := InBetween; sln := ln |} rs = Val (items, true) /\ (length items <= length rs)%nat.
 Proof. exact sdrain_finite. Qed.
 Print Assumptions C05_drain_total.
+
+(** Any section yielded anywhere in the full drain - in particular after an error - is still a run of
+    consecutive input lines: a header line followed by exactly its data lines ([is_run]); that the last and
+    only the last is terminating is C13_accepted_sections_proper's shape, proved for the grammar's items. *)
+Theorem C05_sections_are_runs : forall rs ln fuel items, (length rs + 1 < fuel)%nat ->
+  sdrain fuel {| sst := InBetween; sln := ln |} rs = Val (items, true) ->
+  forall sec, In (Ok sec) items -> exists pre run post, rs = pre ++ run ++ post /\ is_run sec run.
+Proof. exact sdrain_sections_are_runs. Qed.
+Print Assumptions C05_sections_are_runs.
 
 Example C05_nonvacuous :
   let hdr := [99;104;97;105;110;32;48;32;97;32;52;32;43;32;48;32;52;32;98;32;53;32;45;32;48;32;53;32;49] in
